@@ -5,6 +5,9 @@ import os
 from .core import jdump
 
 ROOT = os.path.dirname(os.path.dirname(os.path.dirname(os.path.abspath(__file__))))
+# the mutant self-test points checks at a scratch copy of the repository; their replays and evidence must not
+# land in /verif
+OUT = os.environ.get("VERIF_OUT_DIR") or ROOT
 
 
 def _short_plan(plan, limit=40):
@@ -21,7 +24,7 @@ def _short_plan(plan, limit=40):
 
 
 def write_replay(prop, seed, tier, rec, n):
-    d = os.path.join(ROOT, "replays")
+    d = os.path.join(OUT, "replays")
     os.makedirs(d, exist_ok=True)
     plan = rec["plan"]
     path = os.path.join(d, "%s-%s-%d.json" % (prop, plan.get("run_seed", "0" * 8)[:12], n))
@@ -43,7 +46,7 @@ def write_replay(prop, seed, tier, rec, n):
 
 def write(prop, tier, seed, totals, new_violations, known_seen, wall_s, other=None, harness=None):
     from dsim.kernel import runner
-    d = os.path.join(ROOT, "evidence")
+    d = os.path.join(OUT, "evidence")
     os.makedirs(d, exist_ok=True)
     runs = sum(t.get("runs", 0) for t in totals)
     distinct = sum(len(t.get("distinct", ())) for t in totals)
